@@ -4,7 +4,7 @@
    the version index, every git state, --at-least) and both values of --again.
    Executor part: for every well-formed plan and every oracle. *)
 From Coq Require Import List Arith Bool NArith.
-From Conductor Require Import Model.Loader Model.Planner Model.Exec
+From Conductor Require Import Model.Loader Model.Planner Model.Exec Model.RunCase Proofs.Compose
   Proofs.ExecInv Proofs.ExecTheorems Proofs.ExecMain Proofs.PlannerInv Proofs.PlannerThm Proofs.PlannerExact.
 Import ListNotations.
 
@@ -63,6 +63,23 @@ Definition ex_info (t : nat) : tinfo :=
   | 1 => {| t_deps := [2]; t_kind := KCommand; t_par := false |}
   | _ => {| t_deps := []; t_kind := KExperiment; t_par := false |}
   end.
+(* End to end (Proofs/Compose.v): the plan that `cond run` executes once the loader has accepted
+   the project is well formed and contains exactly the needed tasks, once each -- with no
+   hypothesis on the project: duplicate-free dependency lists are what the loader accepted. *)
+Theorem C02_end_to_end :
+  forall fuel tasks c loaded ps r,
+  cond_run fuel tasks c = ORun loaded ps r ->
+  wf_plan (plan_of ps) /\
+  (forall t, (exists o, o < length (ops ps) /\ op_task (op_at (ops ps) o) = t) <->
+             Needed (info_of tasks) (sr_of tasks) (c_again c) (c_root c) t) /\
+  NoDup (map op_task (ops ps)) /\
+  (forall t, In t (cached ps) <-> Frontier (info_of tasks) (sr_of tasks) (c_again c) (c_root c) t).
+Proof.
+  intros fuel tasks c loaded ps r H.
+  destruct (cond_run_plan fuel tasks c loaded ps r H) as (A & B & C & D & _). auto.
+Qed.
+Print Assumptions C02_end_to_end.
+
 Example C02_nonvacuous :
   match plan_for ex_info (fun _ => true) false 50 0 with
   | Some ps => map op_task (ops ps) = [2; 1; 0] /\ map op_exe_deps (ops ps) = [[]; [0]; [0; 1]] /\ cached ps = []
